@@ -1319,7 +1319,7 @@ def _draw_value(draw, tree, o, key, lvl):
         return _draw_value(draw, tree["of"], o, key, lvl)
     if t in _SCALAR_SET:
         v = draw(_scalar_strategy(t))
-        if key and v == "nan":
+        if key and t in ("float", "double") and v == "nan":
             v = 0.0
         return v
 
